@@ -12,6 +12,8 @@
 #include <sys/syscall.h>
 #include <unistd.h>
 #include <fcntl.h>
+#include <semaphore.h>
+#include "../../vlib/vipc.h"
 #include <atomic>
 #include <deque>
 extern "C" {
@@ -408,6 +410,47 @@ Outcome run_sigburst_one(const Case &c, long B, bool bc) {
   vl::stats().klass(string("kind_sigburst_") + (B >= 65536 ? "65536plus" : B >= 256 ? "256plus" : "small") + (parked ? "" : "_consumer_not_parked_first"));
   return o;
 }
+// threads of ONE process opening named semaphores at the same time (C06: "all PSemaphore handles of one name ... share one counter across
+// threads and processes ... a release adds one unit"; "other names are unaffected").  The creator makes the name with value 0; T threads,
+// released together by a spin barrier, each OPEN the name, release one unit and free the handle, R times; a second name, made by one of
+// the threads in the same rounds, is only opened and freed.  Oracle without any waiting: every open succeeds, and at the end the platform
+// counter behind the expected system name holds exactly T*R units, the second name's counter its initial value.
+struct SemOpen { string name, other; int T = 2, R = 100; std::atomic<long> arrive{0}; std::atomic<long> null_opens{0}; };
+SemOpen *SO = nullptr;
+void *semopen_thread(void *arg) {
+  long ti = (long)arg; SemOpen &g = *SO;
+  for (int r = 0; r < g.R; r++) {
+    g.arrive.fetch_add(1); spin_until_at_least(g.arrive, (long)g.T * (r + 1));
+    PSemaphore *s = p_semaphore_new(g.name.c_str(), 7, P_SEM_ACCESS_OPEN, NULL);
+    if (!s) { g.null_opens.fetch_add(1); continue; }
+    p_semaphore_release(s, NULL); p_semaphore_free(s);
+    if (ti == 1) { PSemaphore *o2 = p_semaphore_new(g.other.c_str(), 3, P_SEM_ACCESS_OPEN, NULL); if (o2) p_semaphore_free(o2); else g.null_opens.fetch_add(1); }
+  }
+  return NULL;
+}
+Outcome run_semopen_case(const Case &c) {
+  Outcome o; SemOpen g; SO = &g;
+  struct timespec ts; clock_gettime(CLOCK_MONOTONIC, &ts);
+  g.name = "vrt" + std::to_string((long)getpid()) + "_" + std::to_string((long)ts.tv_sec) + std::to_string((long)ts.tv_nsec) + "a"; g.other = g.name + "b";
+  g.T = std::max(2, std::min(c.T, 8)); g.R = std::max(20, std::min(c.N / 10, 400));
+  PSemaphore *own = p_semaphore_new(g.name.c_str(), 0, P_SEM_ACCESS_CREATE, NULL), *own2 = p_semaphore_new(g.other.c_str(), 3, P_SEM_ACCESS_CREATE, NULL);
+  if (!own || !own2) { o.klass = "semopen-setup"; o.verdict = "creating the semaphores failed"; }
+  else {
+    std::vector<pthread_t> ts_((size_t)g.T);
+    for (long i = 0; i < g.T; i++) pthread_create(&ts_[(size_t)i], NULL, semopen_thread, (void *)i);
+    for (auto &t : ts_) pthread_join(t, NULL);
+    auto value_of = [](const string &n) { sem_t *pk = sem_open(("/" + vi::key13(n + "_p_sem_object")).c_str(), 0); int v = -1000000; if (pk != SEM_FAILED) { sem_getvalue(pk, &v); sem_close(pk); } return v; };
+    int v = value_of(g.name), v2 = value_of(g.other); long want = (long)g.T * g.R;
+    if (g.null_opens.load()) { o.klass = "concurrent-open-failed"; o.verdict = std::to_string(g.null_opens.load()) + " OPEN-mode p_semaphore_new call(s) on an existing name failed while other threads of the process were opening semaphores at the same time"; }
+    else if (v != want) { o.klass = "concurrent-open-other-counter"; o.verdict = std::to_string(g.T) + " threads each opened the name, released one unit and freed the handle " + std::to_string(g.R) + " times: the name's counter holds " + std::to_string(v) + " units instead of " + std::to_string(want) + " (handles opened at the same time by threads of one process did not all refer to the name's counter)"; }
+    else if (v2 != 3) { o.klass = "concurrent-open-other-name"; o.verdict = "a second name that was only opened and freed meanwhile now holds " + std::to_string(v2) + " instead of its initial 3 units"; }
+  }
+  if (own) { p_semaphore_take_ownership(own); p_semaphore_free(own); } if (own2) { p_semaphore_take_ownership(own2); p_semaphore_free(own2); }
+  sem_unlink(("/" + vi::key13(g.name + "_p_sem_object")).c_str()); sem_unlink(("/" + vi::key13(g.other + "_p_sem_object")).c_str());
+  SO = nullptr;
+  o.nontrivial = g.T >= 2; o.fp = vl::fnv1a(to_text(c)); vl::stats().klass("kind_semopen_T" + std::to_string(g.T));
+  return o;
+}
 // long hold: one thread keeps the lock for seconds while another sits in the blocking lock call the whole time (hundreds of millions of
 // failed acquisition attempts for a spinlock): the waiter's call may return only after the release.  One-sided: a slow machine makes the
 // waiter try fewer times, never makes a correct lock fail.
@@ -541,6 +584,7 @@ Outcome run_case(const Case &c) {
   if (c.kind == "rwmany") return run_rwmany_case(c);
   if (c.kind == "rwwait") return run_rwwait_case(c);
   if (c.kind == "sigburst") return run_sigburst_case(c);
+  if (c.kind == "semopen") return run_semopen_case(c);
   Outcome o;
   Shared g; G = &g;
   g.c = c;
